@@ -72,7 +72,16 @@ pub fn gen_c13(seed: u64, tier: &str) -> Value {
     if doc["version"] == "2.0" && r.chance(2, 3) {
         doc["authorizationRules"]["imds"]["rules"]["roleAssignments"] = json!([]); // nobody is granted anything
     }
-    steps.push(json!({"t": "doc", "doc": doc}));
+    // a third of the runs: a well-formed but sloppy rule document as an operator could write one - references to roles,
+    // identities and privileges that are not defined, sections left out, names used twice, upper-case paths - followed
+    // by requests that hit its privileges
+    let sloppy_rules = r.chance(1, 3);
+    if sloppy_rules {
+        let o = crate::gen::RuleOpts { allow_upper_paths: true, allow_dup_names: true, allow_missing_sections: true, allow_dangling: true };
+        let procs_v = Value::Array(procs.as_array().cloned().unwrap_or_default());
+        doc = crate::gen::gen_doc(&mut r, &procs_v, &o, 0);
+    }
+    steps.push(json!({"t": "doc", "doc": doc.clone()}));
     if r.chance(1, 3) {
         steps.push(json!({"t": "clock_coarse", "ns": *r.pick(&[1_000_000u64, 10_000_000, 100_000_000, 1_000_000_000])}));
     }
@@ -143,6 +152,15 @@ pub fn gen_c13(seed: u64, tier: &str) -> Value {
                     4 => format!("/metadata/instance?x={}", "%E6%BC%A2".repeat(*r.pick(&[1usize, 400, 1400]))),
                     _ => "/metadata/instance?api-version=2018-02-01".to_string(),
                 };
+                let mut target = target;
+                if sloppy_rules && r.chance(2, 3) {
+                    let ep = match dst { "imds" => "imds", "wire" => "wireserver", "ga" => "hostga", _ => "imds" };
+                    let item = &doc["authorizationRules"][ep];
+                    if item.is_object() {
+                        let urls = crate::gen::c02_urls(&mut r, item);
+                        target = r.pick(&urls).clone();
+                    }
+                }
                 let mut q = json!({"method": *r.pick(&["GET", "POST", "PUT"]), "target": target, "headers": hs, "tok": format!("t{}", tokn)});
                 if q["method"] != "GET" {
                     q["body"] = json!({"len": r.below(2000), "seed": r.next() >> 8, "ascii": false});
@@ -171,6 +189,11 @@ pub fn gen_c13(seed: u64, tier: &str) -> Value {
     }
     // liveness half: after the hostile phase everything still works
     steps.push(json!({"t": "drain_faults", "max_s": 200}));
+    if sloppy_rules {
+        // the probe below must be authorised whatever the sloppy document said
+        steps.push(json!({"t": "doc", "doc": doc_v1("wireserverandimds")}));
+        steps.push(json!({"t": "wait_polls", "n": 2, "max_s": 300}));
+    }
     steps.push(json!({"t": "sleep", "ms": 70_000}));
     steps.push(json!({"t": "liveness_mark"}));
     steps.push(json!({"t": "clients", "conns": [{"proc": 3, "dst": "wire", "start_ms": 0, "reqs": [{"method": "GET", "target": "/machine?comp=goalstate", "headers": [["Host", "168.63.129.16"], ["x-ms-version", "2012-11-30"]], "tok": "live1"}]}]}));
